@@ -401,6 +401,14 @@ def hook(res, tier, files=None, max_breaks=5):
         ch_exec = sorted(n for n in ch if idx.get(n) in exe)
         frag["chains"] = {"functions_inside": len(ch), "functions_outside": len(info["functions"]) - len(ch), "executed_inside": len(ch_exec), "executed_outside": len(exe) - len(ch_exec), "executed_outside_names": []}
         # <<< WP1c
+        # >>> WP1d: chains with conditionals on utils.is_next_token
+        ic = [n for n in d.ask("IFCHAINS").split(";") if n]
+        ic_exec = sorted(n for n in ic if idx.get(n) in exe)
+        frag["ifchains"] = {"functions_inside": len(ic), "functions_outside": len(info["functions"]) - len(ic), "executed_inside": len(ic_exec), "executed_outside": len(exe) - len(ic_exec), "executed_outside_names": []}
+        dt = [n for n in d.ask("DETECTORS").split(";") if n]
+        dt_exec = sorted(n for n in dt if idx.get(n) in exe)
+        frag["detectors"] = {"functions_inside": len(dt), "functions_outside": len(info["functions"]) - len(dt), "executed_inside": len(dt_exec), "executed_outside": len(exe) - len(dt_exec), "executed_outside_names": []}
+        # <<< WP1d
         d.close()
     except Exception as ex:  # noqa: BLE001
         frag = {"error": repr(ex)}
